@@ -227,12 +227,18 @@ def shards(tier):
         out.append({"kind": "raw", "n": 3000 if quick else 150000})
     for i in range(8):
         out.append({"kind": "family", "part": i, "of": 8, "quick": quick})
+    if not quick:
+        for i in range(6):
+            out.append({"kind": "fuzz", "seconds": 300})
     return out
 
 
 def run_shard(desc, seed, tier):
     acc = Acc()
     kind = desc["kind"]
+    if kind == "fuzz":
+        from vf.core import fuzz_shard
+        return fuzz_shard("c03", desc["seconds"], seed)
     if kind == "soup":
         strat = st.tuples(soup.soup_text(max_items=60), _cfg, st.booleans())
 
